@@ -529,9 +529,24 @@ class _ExtendedTypeFetcher(Thread):
 
         self.request_queue = Queue()
         self._cf.add_port_callback(CRTPPort.PARAM, self._new_packet_cb)
+        self._cf.disconnected.add_callback(self._disconnected_cb)
         self._should_close = False
         self._req_param = -1
         self._count = -1
+
+    def _remove_callbacks(self):
+        self._cf.remove_port_callback(CRTPPort.PARAM, self._new_packet_cb)
+        try:
+            self._cf.disconnected.remove_callback(self._disconnected_cb)
+        except ValueError:
+            pass
+
+    def _disconnected_cb(self, link_uri):
+        # The link was closed before all the types were fetched, abort
+        self._done_callback = None
+        self._req_param = -1
+        self._remove_callbacks()
+        self._close()
 
     def _new_packet_cb(self, pk):
         """Callback for newly arrived packets"""
@@ -544,6 +559,7 @@ class _ExtendedTypeFetcher(Thread):
                     self._toc.get_element_by_id(var_id).mark_persistent()
                 self._count -= 1
                 if self._count == 0:
+                    self._remove_callbacks()
                     if self._done_callback is not None:
                         self._done_callback()
                     self._close()
